@@ -919,12 +919,24 @@ def runner_cases(ctx, b, r, c):
     res_t = c['res']
     T = runner_result_option(r, c)
     if T == res_t:
-        return case_returns_rerun(ctx, b.name, res_t)
-    idx = T[3]
-    width = max([x[3] for x in _terms_of(r) if x[0] == 'field' and x[1] == res_t and x[2] is None] + [idx]) + 1
-    def build(opt):
-        return ('tuple', tuple(opt if i == idx else ('field', res_t, None, i) for i in range(max(width, 2))))
-    return case_returns_rerun(ctx, b.name, res_t, build)
+        cases, V = case_returns_rerun(ctx, b.name, res_t)
+    else:
+        idx = T[3]
+        width = max([x[3] for x in _terms_of(r) if x[0] == 'field' and x[1] == res_t and x[2] is None] + [idx]) + 1
+
+        def build(opt):
+            return ('tuple', tuple(opt if i == idx else ('field', res_t, None, i) for i in range(max(width, 2))))
+        cases, V = case_returns_rerun(ctx, b.name, res_t, build)
+    # a kernel that also contains the sequential route (`if params.is_sequential() { return seq.. }`) returns that route's value in
+    # both cases: it does not depend on the runner and is judged by the sequential rules (C09-SEQSHAPE)
+    try:
+        common = set(cases['none']) & set(cases['some'])
+        seq = {x for x in common if any(y[0] == 'call' and term_method(y) == 'into_seq_iter' for y in subterms(x))}
+        if seq and (set(cases['none']) - seq) and (set(cases['some']) - seq):
+            cases = dict(cases, none=type(cases['none'])(x for x in cases['none'] if x not in seq), some=type(cases['some'])(x for x in cases['some'] if x not in seq))
+    except Exception:
+        pass
+    return cases, V
 
 
 def _terms_of(r):
